@@ -26,6 +26,8 @@ class Oracle:
         inf = lambda s, sign: s.t[0] == 'const' and s.t[1] == sign * math.inf
         if k in ('lt', 'le') and (inf(a, -1) or inf(b, +1)) and not (inf(b, -1) or inf(a, +1)): return True
         if k in ('lt', 'le') and (inf(a, +1) or inf(b, -1)): return False
+        for c, v in self.trace:                               # the same question within one execution gets the same answer
+            if repr(c.t) == key: return v
         i = len(self.trace)
         v = self.prefix[i] if i < len(self.prefix) else True
         self.trace.append((cond, v))
@@ -170,9 +172,17 @@ def make_backend(pyhf):
                 return np.asarray(tensor_in, dtype=object)
             return super().astensor(tensor_in, dtype)
 
-        def power(self, a, b): return np.power(np.asarray(a, dtype=object), b) if getattr(a, 'dtype', None) == object or getattr(b, 'dtype', None) == object else super().power(a, b)
-        def log(self, a): return np.log(a)
-        def exp(self, a): return np.exp(a)
-        def sqrt(self, a): return np.sqrt(a)
-        def abs(self, a): return np.abs(a)
+        @staticmethod
+        def _lift(a):
+            a = np.asarray(a)
+            return np.vectorize(lit, otypes=[object])(a) if a.dtype == object else a      # plain numbers inside an object tensor → constants
+
+        def power(self, a, b):
+            if getattr(a, 'dtype', None) == object or getattr(b, 'dtype', None) == object:
+                return np.power(self._lift(np.asarray(a, dtype=object)), b)
+            return super().power(a, b)
+        def log(self, a): return np.log(self._lift(a))
+        def exp(self, a): return np.exp(self._lift(a))
+        def sqrt(self, a): return np.sqrt(self._lift(a))
+        def abs(self, a): return np.abs(self._lift(a))
     return symbolic_backend()
